@@ -10,16 +10,16 @@ CHECKS = {
          'Shape of the cross-variant comparison for all enums: safe code only, compared integers come from a match with one arm per variant carrying that variant\'s declared discriminant (explicit literal, else previous+1 from 0), fields compared only under discriminant equality.', '§6 C04'),
  'C12': ('impl-header provenance dataflow (split_for_impl / make_where_clause / Bound result only) over all impl templates; arm tables of Bound::from_meta, WherePredicatesOrBool and the predicate builders',
          'All impl headers (39 templates incl. companions, per-target Into, nested Debug wrapper) carry exactly the type\'s generics plus predicates computed by Bound; the value→mode and mode→predicates tables equal the documented ones; `*` iterates type parameters only.', '§6 C12'),
- 'C16': ('type-directed census of HashMap/HashSet bindings and every iteration form over them; order-insensitive-consumer analysis over the call graph; census of environment APIs and global state',
+ 'C16': ('type-directed census of HashMap/HashSet bindings and every iteration form over them; order-insensitive-consumer analysis over the call graph; census of environment APIs and global state; cross-checked against rustc\'s type-resolved MIR call terminators (rustc_private driver tools/mirfacts: every resolved HashMap/HashSet iteration callee must be a classified site, no callee in time/env/fs/process/thread/random/lock APIs)',
          'No iteration over a hash container can influence output or error choice (the one iteration left feeds a vector that is only queried with contains(), followed through every callee); no time/env/fs/thread/random API; no mutable global state.', '§6 C16'),
- 'C17': ('census of every panic-capable construct in educe\'s source with per-site discharge rules (typestate of validated Meta paths and identifier sets over the call graph, dominance via context chains, template re-parse, bounded insert_str, arithmetic idioms); loop/recursion termination rules',
+ 'C17': ('census of every panic-capable construct in educe\'s source with per-site discharge rules (typestate of validated Meta paths and identifier sets over the call graph, dominance via context chains, template re-parse, bounded insert_str, arithmetic idioms); loop/recursion termination rules; cross-checked against rustc\'s MIR (rustc_private driver tools/mirfacts: every type-resolved unwrap/expect/Index/panicking call and every Assert terminator, per function and kind, must be covered by a discharged census site; every MIR loop header by an examined loop)',
          'Every unwrap/expect, panicking macro (incl. debug_assert!), index, panicking std method, unchecked arithmetic and format_ident! in the crate is proven unreachable-as-a-panic by a named rule whose premises are re-derived from the current tree; loops are finite for-loops or a recognised fresh-name search; recursion is structurally decreasing.', '§6 C17'),
  'C19': ('name-resolution lint over the generated-code model: absolute-path rule for every path and macro, receiver rule for method-call syntax, fixed-generic clash rule with fresh-name-provider verification, derived-binder injectivity',
          'For all inputs the generated code refers to nothing by a shadowable name: every path/macro is ::core-absolute, template-local, Self, primitive or a hole; no fixed generic parameter can clash with the type\'s generics; method-call syntax only on template locals.', '§6 C19'),
 }
 
 CHECKS.update({
- 'C13': ('sibling-agreement and typestate rules over the 24 attribute scanners and 24 parameter parsers (SCAN, COUPLE, PARAM), acceptance-switch table at all ≈92 builder sites (FLAGS), unique-selection idiom (SEL), dominance of rejection exits over emissions (SHAPE, DUP)',
+ 'C13': ('sibling-agreement and typestate rules over the 24 attribute scanners and 24 parameter parsers (SCAN, COUPLE, PARAM), acceptance-switch table at all ≈92 builder sites (FLAGS), unique-selection idiom with abstract interpretation of every search loop (SEL), dominance of rejection exits over emissions (SHAPE, DUP)',
          'Each obligation of the statement is tied to a structural rule evaluated on every parser/handler: unknown / un-educed / repeated trait, repeated or unknown or misplaced parameter, repeated rank or Into target, missing or duplicate designation, union and unit-variant refusals, nameless Debug. The acceptance table is transcribed from the documentation by documented names only.', '§6 C13'),
  'C14': ('acceptance/conversion tables of the value helpers extracted from their match arms (p = v vs p(v), string vs bare forms), alias or-patterns, shorthand forms, read/write independence of parameter arms, full-visit and keyed-dispatch rules',
          'For every spelling pair of the property the two spellings reach the same conversion and the same assignment, hence identical attribute records and identical output; parameter and trait order are irrelevant because arms touch only their own state and dispatch is keyed.', '§6 C14'),
@@ -44,7 +44,7 @@ CHECKS.update({
          'For all inputs default() is the type-level expression if given, else the constructor of the struct / designated variant / designated union field with per-field expression-or-Default; new() delegates to default(); literals convert through Into exactly when the field type is not the literal\'s natural type.', '§6 C08'),
  'C09': ('semantic summary of deref/deref_mut: verified designation (only field or unique own-marked field), place-expression body, wildcard-count = designated index, binder = arm value, Target = designated type with references stripped',
          'For all inputs &*x / &mut *x is a place expression of exactly the designated field of the current variant (or the referent for reference fields).', '§6 C09'),
- 'C10': ('semantic summary of the Into impls: one impl per requested target, three-way designation search validated on the search code (only field | own target list | unique same type), body choice driven by method / type-equality of the designated field, binder patterns',
+ 'C10': ('semantic summary of the Into impls: one impl per requested target, three-way designation search validated on the search code (only field | own target list | unique same type) incl. abstract interpretation of each search loop over the selection state {None, Some}, body choice driven by method / type-equality of the designated field, binder patterns',
          'For all inputs and every requested target (and no other) into() returns the designated field through its method, unchanged, or via Into, for whichever variant.', '§6 C10'),
  'C11': ('guard-exactness of every push into the delegated-types collection against the delegation condition of its trait; bound-trait and supertraits tables; companion satisfiability under the shared where-clause',
          'For all inputs the automatic where-clause constrains exactly the field types the generated code delegates to the trait for, with the trait that code calls, plus the documented supertraits; companions are satisfiable under the primary\'s bounds.', '§6 C11'),
@@ -83,7 +83,7 @@ def main():
     head = subprocess.run(['git', '-C', '/repo', 'log', '--format=%H', '-1'], capture_output=True, text=True).stdout.strip()
     m = {
         'version': 1,
-        'setup_cmd': 'cd tools/synjson && CARGO_NET_OFFLINE=true cargo build --release --offline',
+        'setup_cmd': 'cd tools/synjson && CARGO_NET_OFFLINE=true cargo build --release --offline && cd ../mirfacts && CARGO_NET_OFFLINE=true cargo +nightly build --release --offline',
         'hooks': {
             'guard': 'magiclen_educe_verif',
             'enable': 'none needed: the static checkers read /repo\'s source; no instrumentation is compiled into educe',
@@ -92,7 +92,7 @@ def main():
             'add_only': True,
         },
         'engines': [
-            {'name': 'educe-sa', 'path': 'sa/ + tools/synjson', 'serves_properties': sorted(CHECKS), 'kind_free_text': 'repository-specific static analyser: syn-based source model, site/context walker, generated-code model (template grammar), rule engine in Python'},
+            {'name': 'educe-sa', 'path': 'sa/ + tools/synjson + tools/mirfacts', 'serves_properties': sorted(CHECKS), 'kind_free_text': 'repository-specific static analyser: syn-based source model, site/context walker, generated-code model (template grammar), rule engine in Python; rustc_private MIR fact driver (nightly) for the type-resolved cross-checks of C16/C17'},
         ],
         'checks': checks,
         'not_applicable': na,
